@@ -25,4 +25,16 @@ ExecRanges(n, m) ==
          LET off   == IF i - 1 < extra THEN i - 1 ELSE extra
              start == (i - 1) * per + off
          IN  <<start, start + per + (IF i - 1 < extra THEN 1 ELSE 0)>>]
+
+(* the same ranges obtained by running the code's loop statement by statement (the loop that spec/proof/ExecuteInd.tla
+   proves correct for all n, m): state <<ranges so far, extraTasks, extraTasksOffset>> *)
+LoopRanges(n, m) ==
+  LET per0   == n \div m
+      tasks  == IF per0 < 1 THEN n ELSE m
+      per    == IF per0 < 1 THEN 1 ELSE per0
+      st == FoldLeft(LAMBDA s, i : LET start == i * per + s[3]
+                                       bump  == IF s[2] > 0 THEN 1 ELSE 0
+                                   IN  <<Append(s[1], <<start, start + per + bump>>), s[2] - bump, s[3] + bump>>,
+                     <<<<>>, n - tasks * per, 0>>, [k \in 1 .. tasks |-> k - 1])
+  IN  st[1]
 =============================================================================
